@@ -617,6 +617,27 @@ func ruleIDValReset(c *Ctx) []Obligation {
 			return true
 		})
 		if ident == nil {
+			// a literal resolvedIdentity{…, Identity: i}: the *Identity stored into it
+			backSlice(mu.Value, func(x ssa.Value) bool {
+				if al, isA := x.(*ssa.Alloc); isA {
+					for _, r := range refsOf(al) {
+						fa, isF := r.(*ssa.FieldAddr)
+						if !isF {
+							continue
+						}
+						for _, rr := range refsOf(fa) {
+							if st, isS := rr.(*ssa.Store); isS && st.Addr == ssa.Value(fa) {
+								if pt, isP := st.Val.Type().(*types.Pointer); isP && namedOf(pt.Elem()) == idT {
+									ident = st.Val
+								}
+							}
+						}
+					}
+				}
+				return true
+			})
+		}
+		if ident == nil {
 			obs = append(obs, undecided(R, con, c.InstrPos(in), "the identity being filed could not be identified"))
 			return
 		}
